@@ -887,7 +887,7 @@ fn misc(c: &mut Ctx) {
         }
     }
     // the symbolic mode grammar: every string <= 3 over its own alphabet, on a file, a directory and a link
-    let malpha = ["a", "u", "g", "o", "+", "-", "=", "r", "w", "x", ",", ":", "d", "f", "7", "\u{e9}"];
+    let malpha = ["a", "u", "g", "o", "+", "-", "=", "r", "w", "x", ",", ":", "d", "f", "7", "\u{e9}", " "];
     for sym in all_strings(&malpha, 3) {
         if !c.mine() {
             continue;
@@ -1092,9 +1092,10 @@ fn main() {
             }
         }
     }
-    if thorough {
+    {
+        // every string of exactly 5 characters: the pure helpers in both tiers, the filesystem methods in the thorough one
         let l5: Vec<String> = all_strings(&ALPHA, 5).into_iter().filter(|s| s.chars().count() == 5).collect();
-        if set == "all" || set == "vfs" {
+        if thorough && (set == "all" || set == "vfs") {
             for s in &l5 {
                 if c.mine() {
                     vfs_single(&mut c, s, 1, &big);
